@@ -7,6 +7,7 @@ import (
 	"reflect"
 	"sort"
 	"strings"
+	"sync"
 	"time"
 
 	codec "github.com/uhppoted/uhppote-core/encoding/UTO311-L0x"
@@ -569,10 +570,99 @@ func safeUnmarshal(b []byte, m any) (err error) {
 	return codec.Unmarshal(b, m)
 }
 
+// c18RandomLayout packs 1..12 fields of random kinds at non-overlapping offsets, with optional tags and embedding.
+func c18RandomLayout(r gen.R) layoutCase {
+	n := 1 + r.Pick(12)
+	used := [64]bool{}
+	used[0], used[1] = true, true
+	lc := layoutCase{msgType: -1, som: -1}
+	if r.Chance(0.7) {
+		lc.msgType = r.Pick(256)
+		lc.mtTag = tagNumber(r, lc.msgType, false)
+	}
+	if r.Chance(0.15) {
+		lc.som = []int{0x17, 0x19, 0x17, 0x42}[r.Pick(4)]
+		if lc.som == 0x19 {
+			lc.msgType, lc.mtTag = 0x20, "0x20"
+		}
+		if lc.som == 0x42 {
+			lc.som = 0x17
+		}
+		lc.somTag = tagNumber(r, lc.som, false)
+	}
+	embed := r.Chance(0.3)
+	lc.innerAt = r.Pick(16)
+	if embed && lc.msgType >= 0 && r.Chance(0.4) {
+		lc.mtInner = true
+	}
+	for j := 0; j < n; j++ {
+		k := fkinds[r.Pick(len(fkinds))]
+		// find a free slot: prefer packing tightly against the end or a neighbour now and then
+		var off int
+		ok := false
+		for try := 0; try < 12 && !ok; try++ {
+			switch r.Pick(4) {
+			case 0:
+				off = 64 - k.size
+			default:
+				off = 2 + r.Pick(63-k.size)
+			}
+			ok = true
+			for b := off; b < off+k.size; b++ {
+				if used[b] {
+					ok = false
+				}
+			}
+		}
+		if !ok {
+			continue
+		}
+		for b := off; b < off+k.size; b++ {
+			used[b] = true
+		}
+		f := lfield{k: k, offset: off, name: fmt.Sprintf("F%d", j), fixed: -1, embed: embed && r.Chance(0.5)}
+		if k.name == "fixed-byte" {
+			f.fixed = r.Pick(256)
+			f.tagval = tagNumber(r, f.fixed, true)
+		}
+		lc.fields = append(lc.fields, f)
+	}
+	return lc
+}
+
 func c18(c *Ctx) {
 	c.Res.Rule = "struct types are built at run time with reflect.StructOf from the codec's tag grammar (22 field kinds incl. pointer variants, offsets 2..63, optional embedding, function-code / protocol-id / fixed-value tags in decimal, 0x, 0X, upper and lower case); exhaustive for single-field layouts (every kind x every offset at which it fits), random packing for multi-field layouts; oracle = reference encoding of each field at its offset and zero elsewhere, round trip, enforcement of tagged values, no aliasing of the input buffer; distinct = distinct (kind@offset set, tags present) layouts"
 	r := c.Rng("main")
 	var caseNo int64
+
+	// ---- first use of a layout by several goroutines at the same moment (whatever the codec remembers per type is built
+	// under contention here), before anything else has warmed the process up
+	{
+		rounds := c.N(300, 6000)
+		G := 4
+		for i := 0; i < rounds; i++ {
+			lc := c18RandomLayout(r)
+			if len(lc.fields) == 0 {
+				continue
+			}
+			var wg sync.WaitGroup
+			gate := make(chan struct{})
+			for g := 0; g < G; g++ {
+				wg.Add(1)
+				go func(g int) {
+					defer wg.Done()
+					rr := gen.New(c.Seed, fmt.Sprintf("C18/first-use/%d/%d", i, g), c.Batch)
+					<-gate
+					c18Run(c, rr, lc, int64(-1000-i), "concurrent-first-use")
+				}(g)
+			}
+			close(gate)
+			wg.Wait()
+		}
+		c.Res.Count("concurrent-first-use:layouts x goroutines", int64(rounds*G))
+	}
+	// ---- different layouts behind one type name
+	c18NamedTypes(c)
 
 	// ---- exhaustive single-field layouts
 	slot := 0
@@ -605,61 +695,7 @@ func c18(c *Ctx) {
 	N := c.N(4000, 120000)
 	for i := 0; i < N; i++ {
 		caseNo++
-		n := 1 + r.Pick(12)
-		used := [64]bool{}
-		used[0], used[1] = true, true
-		lc := layoutCase{msgType: -1, som: -1}
-		if r.Chance(0.7) {
-			lc.msgType = r.Pick(256)
-			lc.mtTag = tagNumber(r, lc.msgType, false)
-		}
-		if r.Chance(0.15) {
-			lc.som = []int{0x17, 0x19, 0x17, 0x42}[r.Pick(4)]
-			if lc.som == 0x19 {
-				lc.msgType, lc.mtTag = 0x20, "0x20"
-			}
-			if lc.som == 0x42 {
-				lc.som = 0x17
-			}
-			lc.somTag = tagNumber(r, lc.som, false)
-		}
-		embed := r.Chance(0.3)
-		lc.innerAt = r.Pick(16)
-		if embed && lc.msgType >= 0 && r.Chance(0.4) {
-			lc.mtInner = true
-		}
-		for j := 0; j < n; j++ {
-			k := fkinds[r.Pick(len(fkinds))]
-			// find a free slot: prefer packing tightly against the end or a neighbour now and then
-			var off int
-			ok := false
-			for try := 0; try < 12 && !ok; try++ {
-				switch r.Pick(4) {
-				case 0:
-					off = 64 - k.size
-				default:
-					off = 2 + r.Pick(63-k.size)
-				}
-				ok = true
-				for b := off; b < off+k.size; b++ {
-					if used[b] {
-						ok = false
-					}
-				}
-			}
-			if !ok {
-				continue
-			}
-			for b := off; b < off+k.size; b++ {
-				used[b] = true
-			}
-			f := lfield{k: k, offset: off, name: fmt.Sprintf("F%d", j), fixed: -1, embed: embed && r.Chance(0.5)}
-			if k.name == "fixed-byte" {
-				f.fixed = r.Pick(256)
-				f.tagval = tagNumber(r, f.fixed, true)
-			}
-			lc.fields = append(lc.fields, f)
-		}
+		lc := c18RandomLayout(r)
 		if len(lc.fields) == 0 {
 			continue
 		}
